@@ -391,6 +391,14 @@ partial def loop (h : IO.FS.Stream) (out : IO.FS.Stream) (ds : DState) : IO Unit
         ds := ds'
         for v in msgs do
           out.putStrLn v
+        -- observational monitors (no model involved): what the property says directly about the node's own before/after states
+        let deltas := chs.filterMap (fun c => match words c.key with
+          | ["b", a, cc] => some ((hexNat a, natD cc), amountOf c.key c.new - amountOf c.key c.old)
+          | _ => none)
+        for v in beginMonitor ds.params.unbond old new ds.begin deltas do
+          out.putStrLn v
+        for v in pendingIdentityMonitor ds.begin.height old new do
+          out.putStrLn v
         if haltExpected old ds.begin.signed ds.begin.height then
           out.putStrLn s!"VIOL C20 halt-vote-passed-but-node-continued height={ds.begin.height}"
       | none => pure ()
